@@ -519,6 +519,10 @@ func c16WholeRun(ctx *Ctx, res *Result, rng *Rng, ntrees int) {
 		}
 	})
 	doneKeys := map[string]bool{}
+	// shrinking is sequential and every evaluation is up to 11 runs of the binary: a change that
+	// breaks many fix sites at once (e.g. every inserting fix on CR LF files) must not push the
+	// run over its time limit -- at most 360 shrink evaluations per run, 120 per key
+	shrinkLeft := 360
 	for i := range outcomes {
 		for _, oc := range outcomes[i] {
 			for _, f := range oc.findings {
@@ -536,6 +540,7 @@ func c16WholeRun(ctx *Ctx, res *Result, rng *Rng, ntrees int) {
 							}
 						}
 					}
+					shrinkLeft--
 					fs, _ := c16Evaluate(ctx, dir, t, oc.targets)
 					for _, g := range fs {
 						if g.Key == f.Key {
@@ -545,7 +550,14 @@ func c16WholeRun(ctx *Ctx, res *Result, rng *Rng, ntrees int) {
 					}
 					return false
 				}
-				small := c04ShrinkTree(oc.tree, base, 120, has)
+				budget := 120
+				if shrinkLeft < budget {
+					budget = shrinkLeft
+				}
+				small := oc.tree
+				if budget > 0 {
+					small = c04ShrinkTree(oc.tree, base, budget, has)
+				}
 				has(small)
 				os.RemoveAll(dir)
 				rep := small.ToReplay(base)
